@@ -146,7 +146,12 @@ func (r *refStore) Expire(conn *redis.Conn, key string, opt redis.ExpireOption) 
 		return ints(0), nil
 	}
 	now := time.Now()
-	t := secs(opt.Time.Sub(now))
+	// the framework computed opt.Time = (its own now) + n seconds a moment ago: rounding the remaining time UP recovers n
+	// unless a whole second passed between the two clock readings
+	t := int((opt.Time.Sub(now) + time.Second - time.Nanosecond) / time.Second)
+	if opt.Time.Sub(now) <= 0 {
+		t = 0
+	}
 	cur := e.x // 0 = persistent = an infinite time to live for GT / LT
 	if (opt.NX && cur != 0) || (opt.XX && cur == 0) || (opt.GT && (cur == 0 || t <= cur)) || (opt.LT && cur != 0 && t >= cur) {
 		return ints(0), nil
